@@ -91,7 +91,7 @@ def run(F, R, tier):
             if "ModuleEntryRef::Redirect" in pat_text(arm["pat"]):
                 binds = {b_["lid"] for b_ in pat_bindings(arm["pat"])}
                 ps = [n for n in walk(arm["body"]) if n.get("k") == "MethodCall" and n["name"].startswith("push")]
-                ok = len(ps) == 1 and peel_value(ps[0]["args"][0]).get("lid") in binds
+                ok = len(ps) == 1 and any(peel_value(y).get("lid") in binds for y in through_locals(ps[0]["args"][0]))
     R.ob("C18-b", "the walk that feeds the segment yields every hop of a redirect chain", ok,
          "the walker jumps from a redirect entry to something other than the redirect's own target: hops in between are never yielded, so the segment loses their redirects", nx["file"])
 
